@@ -260,7 +260,7 @@ def replay(iset, memarch, nregions, inputs, ob):
         diff = {k: (_h(init[k]), _h(final[k])) for k in final if k not in STEP.SCRATCH and final[k] != init[k]}
         if hooks:
             lines.append('leaves changed before the hook: %s' % diff)
-        bad = bool(hooks) and (gates[0][0] != 'coproc_accepted' or gates[0][1] != hooks[0][1] or bool(diff))
+        bad = bool(hooks) and (gates[0][0] != 'coproc_accepted' or gates[0][1] != hooks[0][1] or (bool(diff) and 'take_hyp_trap_exception' not in taken))
     elif mrows:
         # a hint stopped at its mock hook: the condition passed and nothing has changed by then
         from spec.cpu import Cpu
